@@ -20,6 +20,10 @@ BUILT = {
             "the expected code must be reported on the expected line, the file must be Error and the CLI must exit non-zero. Misses are bucketed by (operator, site class).",
             "Site predicates are trusted to describe where each enforced rule applies; rules the tool does not police are not in the catalogue; lenient classes found are open findings keyed (operator, site class).",
             "§4.2"),
+    "C03": ("boundary-value construction: for every limit and every n in [L-3, L+6] a program with measure exactly n is built in a Hypothesis-drawn context; iff oracle",
+            "Both directions at every boundary: the limit's diagnostic is reported for the measured object iff n > L and for no other object, over 21 kinds of line (code, // comment, first/interior/last line of a block comment, "
+            "last line with and without newline...), body shapes, positions and surrounding functions.",
+            "Contexts are sampled; widths are ASCII visual columns.", "§4.3"),
     "C09": ("exhaustive small-alphabet enumeration + Hypothesis lexeme soups against an independent alignment scanner",
             "Every token position is compared with the position recomputed from the raw text by a scanner that shares no code with the lexer; "
             "all strings up to a length bound over two reduced lexical alphabets are enumerated completely and longer lexeme soups are sampled. "
